@@ -241,29 +241,35 @@ Fixpoint chunks10 {A} (fuel : nat) (l : list A) : list (list A) :=
   end.
 
 (* EXPORT_ARRAY / EXPORT_TYPE_GPINDEX_ARRAY: one element per 10 entries, each entry followed by a space;
-   None if a line does not fit the 255-byte stack buffer (sprintf overflow in C) *)
-Definition array_nodes {A} (tag : string) (render : A -> list N) (l : list A) : option (list xnode) :=
+   None if a line (plus its NUL) does not fit the stack buffer char _tmp[bufsize] (sprintf overflow in C) *)
+Definition array_nodes {A} (bufsize : N) (tag : string) (render : A -> list N) (l : list A) : option (list xnode) :=
   let mk c := let txt := flat_map (fun x => render x ++ [32]) c in
-              (N.of_nat (length txt) <? 255, XNode (lit tag) [(lit "length", dec (N.of_nat (length txt)))] (XContent txt)) in
+              (N.of_nat (length txt) <? bufsize, XNode (lit tag) [(lit "length", dec (N.of_nat (length txt)))] (XContent txt)) in
   let r := map mk (chunks10 (length l) l) in
   if forallb fst r then Some (map snd r) else None.
 
 Definition use_os_index (ty : N) : bool := (ty =? HWLOC_OBJ_PU) || (ty =? HWLOC_OBJ_NUMANODE).
 
-Definition dist_node (d : dist) : option xnode :=
+(* sizes of the two line buffers: EXPORT_ARRAY has char _tmp[255]; EXPORT_TYPE_GPINDEX_ARRAY had 255 as well until
+   /repo commit 3181493 made it (32+1+20+1)*maxperline+1 with maxperline = 10 *)
+Definition ARRAY_BUF : N := 255.
+Definition GPINDEX_BUF_OLD : N := 255.
+Definition GPINDEX_BUF : N := (32 + 1 + 20 + 1) * 10 + 1.
+
+Definition dist_node_gen (gpbuf : N) (d : dist) : option xnode :=
   let kind := if v2 && band (d_kind d) HWLOC_DISTANCES_KIND_VALUE_HOPS
               then N.lor (N.ldiff (d_kind d) HWLOC_DISTANCES_KIND_VALUE_HOPS) HWLOC_DISTANCES_KIND_VALUE_LATENCY
               else d_kind d in
   let nb := if d_hetero d then N.of_nat (length (d_objs d)) else N.of_nat (length (d_indexes d)) in
   let idx := if d_hetero d
-             then array_nodes "indexes" (fun tg => type_string (fst tg) ++ [58] ++ dec (snd tg)) (d_objs d)
-             else array_nodes "indexes" dec (d_indexes d) in
-  match idx, array_nodes "u64values" dec (d_values d) with
+             then array_nodes gpbuf "indexes" (fun tg => type_string (fst tg) ++ [58] ++ dec (snd tg)) (d_objs d)
+             else array_nodes ARRAY_BUF "indexes" dec (d_indexes d) in
+  match idx, array_nodes ARRAY_BUF "u64values" dec (d_values d) with
   | Some i, Some v =>
       Some (XNode (lit (if d_hetero d then "distances2hetero" else "distances2"))
              ((if d_hetero d then [] else [(lit "type", type_string (d_unique_type d))]) ++
               [(lit "nbobjs", dec nb); (lit "kind", dec kind)] ++
-              opt_attr "name" (d_name d) ++
+              opt_attr "name" (option_map safestrdup (d_name d)) ++          (* through safestrdup since /repo 3735d4f *)
               (if d_hetero d then [] else [(lit "indexing", lit (if use_os_index (d_unique_type d) then "os" else "gp"))]))
              (XChildren (i ++ v)))
   | _, _ => None
@@ -277,9 +283,9 @@ Fixpoint opt_all {A} (l : list (option A)) : option (list A) :=
   end.
 
 (* homogeneous matrices first, then heterogeneous ones *)
-Definition dist_nodes : option (list xnode) :=
-  opt_all (map dist_node (filter (fun d => negb (d_hetero d)) (t_distances T)) ++
-           map dist_node (filter d_hetero (t_distances T))).
+Definition dist_nodes_gen (gpbuf : N) : option (list xnode) :=
+  opt_all (map (dist_node_gen gpbuf) (filter (fun d => negb (d_hetero d)) (t_distances T)) ++
+           map (dist_node_gen gpbuf) (filter d_hetero (t_distances T))).
 
 (* ---------- support ---------- *)
 Definition support_nodes : list xnode :=
@@ -308,7 +314,7 @@ Fixpoint memattr_nodes (id : N) (l : list memattr) : list xnode :=
   | m :: tl =>
       (if (id =? HWLOC_MEMATTR_ID_CAPACITY) || (id =? HWLOC_MEMATTR_ID_LOCALITY) then []
        else if (id <? HWLOC_MEMATTR_ID_MAX) && (length (ma_targets m) =? 0)%nat then []
-       else [XNode (lit "memattr") [(lit "name", ma_name m); (lit "flags", dec (ma_flags m))]
+       else [XNode (lit "memattr") [(lit "name", safestrdup (ma_name m)); (lit "flags", dec (ma_flags m))]
                    (XChildren (flat_map (memattr_value_nodes (band (ma_flags m) HWLOC_MEMATTR_FLAG_NEED_INITIATOR)) (ma_targets m)))])
       ++ memattr_nodes (N.succ id) tl
   end.
@@ -321,8 +327,8 @@ Definition cpukind_node (k : cpukind) : xnode :=
     (XChildren (map info_node (ck_infos k))).
 
 (* ---------- hwloc__xml_export_topology inside hwloc___nolibxml_prepare_export ---------- *)
-Definition topology_node : option xnode :=
-  match dist_nodes with
+Definition topology_node_gen (gpbuf : N) : option xnode :=
+  match dist_nodes_gen gpbuf with
   | None => None
   | Some dn =>
       Some (XNode (lit "topology") [(lit "version", lit (if v2 then "2.0" else "3.0"))]
@@ -331,10 +337,13 @@ Definition topology_node : option xnode :=
                          (if v2 then [] else map info_node (t_infos T)))))
   end.
 
-(* None: the C code overflows a 255-byte stack buffer while printing a distances line *)
-Definition export_bytes : option (list N) :=
-  match topology_node with
+(* None: the C code overflows a stack buffer while printing a distances line *)
+Definition export_bytes_gen (gpbuf : N) : option (list N) :=
+  match topology_node_gen gpbuf with
   | Some n => Some (header ++ print_node 0 n)
   | None => None
   end.
+(* the code as committed *)
+Definition dist_node := dist_node_gen GPINDEX_BUF.
+Definition export_bytes := export_bytes_gen GPINDEX_BUF.
 End Export.
